@@ -159,7 +159,15 @@ def run(chk):
         if np.linalg.norm(np.cross(V[2] - V[1], V[0] - V[1])) == 0:
             continue
         sh = S.Polygon(V)
+        if len(cases) >= 0 and rng.random() < 0.5:
+            # the plane's normal given explicitly, as a vector of any length along it (either sense): the polygon, its unit normal and its
+            # amplitudes are those of the vertices
+            sh = S.Polygon(V, normal=np.array(sh.normal, float) * float(rng.choice([2.5, 0.25, -3.0, -0.5])))
+            kind += "/explicit-normal"
         n = np.array(sh.normal, float)
+        if abs(float(np.linalg.norm(n)) - 1.0) > 1e-12:
+            chk.violation("polygon-normal-not-unit", dict(vertices=V.tolist(), normal=n.tolist(), what="the normal of a polygon built with an explicit normal vector is not a unit vector"))
+            continue
         size = float(np.max(np.linalg.norm(V - V.mean(0), axis=1))) * 2
         edges = [V[1] - V[0], V[2] - V[1]]
         Q = qs_for(rng, size, [n, np.cross(edges[0], n), np.cross(edges[1], n)], nq)
